@@ -35,7 +35,6 @@ def run(c):
     for fn in ("validate_block", "validate_tx"):
         c.r1("view-%s-inputs" % fn, U + fn, U + "validate_inputs", via=2)
         c.loop("view-%s-outputs" % fn, U + fn, U + "validate_output", over=r"::outputs\(arg1\)")
-        c.r2_arg("view-%s-over-outputs" % fn, U + fn, "re:iter::traits::collect::IntoIterator::into_iter$", 0, must=["re:^call:(Block|Transaction)::outputs$", "arg1"])
     VI = U + "validate_input"
     c.r1("input-needs-index", VI, B + "get_output_pos_height", via=2)
     c.r1("input-needs-data", VI, "re:ReadablePMMR>::get_data$|pmmr::ReadablePMMR::get_data$", via=2,
